@@ -125,6 +125,7 @@ typedef struct {
     int        is_server;
     buf_t      delivered;      /* application bytes handed to the app (concatenated) */
     int        n_deliveries;   /* number of APP_DATA events */
+    struct { uint32_t len; uint64_t hash; } dlog[64]; /* first 64 deliveries */
     int        deliv_incomplete; /* APP_DATA events reported while matrixSslHandshakeIsComplete() was false */
     buf_t      submitted;      /* application bytes the app of THIS side submitted */
     int        complete;       /* HANDSHAKE_COMPLETE seen (or IsComplete true at delivery) */
